@@ -84,7 +84,9 @@ TEXT.update({
                     'build_combinations ensures built) + the trigger key, output = the output modifiers with aliases replaced by the keys chosen on the trigger side + the output key; a row yields, per combination, one pair per '
                     'non-space letter in letter order (letters = the characters of the string, vstd knows chars().collect()), trigger = combination keys + the key in the letter\'s column of the physical row, output = output '
                     'modifiers + the Shift the character needs (right Shift iff the trigger contains right Shift) + the key of the character. The tables themselves (94 characters, 5 rows) are compared with the US-QWERTY layout '
-                    'for every Unicode scalar value and every row on every run (enumerative, complete). The alias table is tied to the source (find_alias_mappings ensures table_for: for every alias name exactly the definitions written for it, in source order); convert_single / convert_row also ensure the repeat mode (Special keys and row repeat letters converted like outputs) and the absorbing list of each mapping they produce. Not under contract: the trigger-set matching of the repeat-only pass (hence the repeat modes of the final layout), spelling equivalence (parser).'),
+                    'for every Unicode scalar value and every row on every run (enumerative, complete). The alias table is tied to the source (find_alias_mappings ensures table_for: for every alias name exactly the definitions written for it, in source order); convert_single / convert_row also ensure the repeat mode (Special keys and row repeat letters converted like outputs) and the absorbing list of each mapping they produce. Not under contract: the trigger-set matching of the repeat-only pass (hence the repeat modes of the final layout), spelling equivalence (parser), and WHEN the converter accepts (all contracts read "r is Ok ==> ..."). '
+                    'Bounded stand-in for those three, never counted as proof: a fixed set of generated layout programs (150,000 quick / 4,000,000 thorough; same programs on every run) is loaded through the real parser + converter and compared, '
+                    'mapping by mapping and acceptance included, with the expansion written out by hand in the harness (extra programs_bounded).'),
         design_ref='6.13', level_note=CONV_NOTE + ' Partial: the assumptions list the clauses that are not under contract.'),
     'C17': dict(
         technique='deductive verification (Verus) of the escaping theorem over a specification of systemd\'s ExecStart parsing + verified executable twins run exhaustively on the real escape_one_char / build_service_text',
